@@ -353,7 +353,7 @@ impl Sim {
         self.txn(|s| {
             // the commitment is built (and counter-signed) for number n; building needs the point,
             // which the channel only hands out for n <= next: use the helper's number juggling
-            let build_n = n.min(next);
+            let build_n = n.min(next + 1);
             let mut ctx = channel_commitment(&s.node_ctx, &s.chan_ctx, build_n, feerate, to_holder, to_cp, offered.clone(), received.clone());
             let (mut csig, hsigs) = counterparty_sign_holder_commitment(&s.node_ctx, &s.chan_ctx, &mut ctx);
             if !good_sig {
@@ -418,7 +418,7 @@ impl Sim {
         let (to_holder, to_cp, offered, received, feerate) =
             if n == 0 { (CHANNEL_VALUE - 1_000, 0, vec![], vec![], 0) } else { (to_holder, to_cp, offered, received, feerate) };
         self.txn(|s| {
-            let build_n = n.min(next);
+            let build_n = n.min(next + 1);
             let mut ctx = channel_commitment(&s.node_ctx, &s.chan_ctx, build_n, feerate, to_holder, to_cp, offered.clone(), received.clone());
             let (mut csig, hsigs) = counterparty_sign_holder_commitment(&s.node_ctx, &s.chan_ctx, &mut ctx);
             if !good_sig {
